@@ -378,9 +378,7 @@ def run(chk, replay_path):
         chk.model_violation("FixedVector", r)
         return
     g = tour.Graph()
-    for ln in r["lines"]["EDGE"]:
-        g.add(ln)
-    r["lines"]["EDGE"] = None
+    g.add_all(r["lines"]["EDGE"])
     if len(g.edges) < 1000:
         raise vc.Infra("FixedVector model exported only %d edges" % len(g.edges))
     chk.exhaustive = True
